@@ -67,6 +67,8 @@ UNIT = Unit(
     items=[
         Adt(file=T, kw="enum", name="Ty", rules=["attrs"]),
         Adt(file=T, kw="struct", name="TastIdent", rules=["attrs"]),
+        Adt(file="crates/common-defs/src/lib.rs", kw="enum", name="UnaryOp", rules=["attrs"]),
+        Adt(file="crates/common-defs/src/lib.rs", kw="enum", name="BinaryOp", rules=["attrs"]),
         Adt(file=T, kw="enum", name="UnaryResolution", rules=["attrs"]),
         Adt(file=T, kw="enum", name="BinaryResolution", rules=["attrs"]),
         Adt(file=T, kw="enum", name="Expr", rules=["attrs", ("strip", "common_defs::")]),
